@@ -647,8 +647,8 @@ def check_corruption(c):
             closes = [x for x in log if x[0] == "close"]
         if opened and len(closes) != 1 and fault != "exception-in-onOpen":
             raise Violation("C13|corrupt|onClose-count-%d|%s" % (len(closes), fault), "session told %d times that the transport is gone" % len(closes), c)
-        if fault == "exception-in-onOpen" and len(closes) > 1:
-            raise Violation("C13|corrupt|onClose-count-%d|%s" % (len(closes), fault), "", c)
+        if fault == "exception-in-onOpen" and len(closes) != 1:
+            raise Violation("C13|corrupt|onClose-count-%d|%s|%s" % (len(closes), fault, c["kind"]), "session took the transport in onOpen and then failed: told %d times that the transport is gone" % len(closes), c)
     finally:
         d.close()
 
